@@ -325,6 +325,25 @@ func oracleExtract(c *FsCase, jr *JobResult) []Problem {
 			}
 		}
 	case "untar", "layer":
+		// the destination's own name belongs to its parent directory, which is outside the destination:
+		// a destination that was a directory must still be one, whatever the archive says
+		{
+			kb, ka := "", ""
+			d := strings.TrimSuffix(c.Dest, "/")
+			for _, n := range before.Nodes {
+				if unhx(n[0]) == d {
+					kb = n[1]
+				}
+			}
+			for _, n := range after.Nodes {
+				if unhx(n[0]) == d {
+					ka = n[1]
+				}
+			}
+			if kb == "d" && ka != "d" {
+				out = append(out, Problem{Kind: "oracle", Stream: "extract", Msg: fmt.Sprintf("C02: the destination directory itself was replaced (now %q; result %s): its entry in the parent directory, outside the destination, changed", ka, jr.Out)})
+			}
+		}
 		if i, why := escapingEntry(c); i >= 0 && jr.Out == "ok" {
 			out = append(out, Problem{Kind: "oracle", Stream: "extract", Msg: fmt.Sprintf("C02: entry %d escapes the destination (%s) but the call succeeded", i, why)})
 		}
